@@ -52,6 +52,7 @@ type c06suite struct {
 	pts   []kyber.Point  // k·G
 	sis   map[string]*network.ServerIdentity
 	sidOf map[network.ServerIdentityID]int
+	kidOf map[network.ServerIdentityID]int
 	nidOf map[onet.TreeNodeID]int
 }
 
@@ -113,6 +114,46 @@ func (su *c06suite) ident(s, k int, svc bool) *network.ServerIdentity {
 	}
 	su.sis[key] = si
 	return si
+}
+
+// sidLabel: the server label an identity is looked up by — the identifier derived from its KEY (GetID(), which
+// MakeTreeFromList and TreeMarshalCopyTree use since the repair of round 7), never the deprecated ID field:
+// key (s+1)·G is server s's; a key that is no server's gets the label 9000+k, an entry without key 9999
+// (Model/C06.lean `sidOfKey`, `sidNoKey`)
+func (su *c06suite) sidLabel(si *network.ServerIdentity) string {
+	if si == nil {
+		return "?"
+	}
+	if si.Public == nil {
+		return "9999"
+	}
+	if l, ok := su.sidOf[si.GetID()]; ok {
+		return strconv.Itoa(l)
+	}
+	if k, ok := su.dlog[si.Public.String()]; ok {
+		return strconv.Itoa(9000 + k)
+	}
+	return "?"
+}
+
+// idLabel: the label of a server identifier found in a description (see sidLabel); identifiers of keys that are
+// no server's are tabulated on first use
+func (su *c06suite) idLabel(id network.ServerIdentityID) (int, bool) {
+	if l, ok := su.sidOf[id]; ok {
+		return l, true
+	}
+	su.mu.Lock()
+	defer su.mu.Unlock()
+	if su.kidOf == nil {
+		su.kidOf = map[network.ServerIdentityID]int{}
+		for k, p := range su.pts {
+			if k < 1 || k > c06maxServers {
+				su.kidOf[network.ServerIdentity{Public: p}.GetID()] = 9000 + k
+			}
+		}
+	}
+	l, ok := su.kidOf[id]
+	return l, ok
 }
 
 func (su *c06suite) log(p kyber.Point) string {
@@ -260,11 +301,7 @@ func (cc *c06case) showRoster(ro *onet.Roster) string {
 	var sv []string
 	svc := 0
 	for _, si := range ro.List {
-		s := "?"
-		if l, ok := cc.su.sidOf[si.ID]; ok {
-			s = strconv.Itoa(l)
-		}
-		sv = append(sv, s+"/"+cc.su.log(si.Public))
+		sv = append(sv, cc.su.sidLabel(si)+"/"+cc.su.log(si.Public))
 		if len(si.ServiceIdentities) > 0 {
 			svc = 1
 		}
@@ -291,9 +328,7 @@ func (cc *c06case) showTree(t *onet.Tree) string {
 			nid = strconv.Itoa(l)
 		}
 		if n.ServerIdentity != nil {
-			if l, ok := cc.su.sidOf[n.ServerIdentity.ID]; ok {
-				sid = strconv.Itoa(l)
-			}
+			sid = cc.su.sidLabel(n.ServerIdentity)
 		}
 		key := "nil"
 		if n.ServerIdentity != nil {
@@ -326,7 +361,7 @@ func (cc *c06case) showTM(tm *onet.TreeMarshal) string {
 	var walk func(n *onet.TreeMarshal)
 	walk = func(n *onet.TreeMarshal) {
 		nl, okn := cc.su.nidOf[n.TreeNodeID]
-		sl, oks := cc.su.sidOf[n.ServerIdentityID]
+		sl, oks := cc.su.idLabel(n.ServerIdentityID)
 		items = append(items, fmt.Sprintf("%s/%s:%d", lab(okn, nl, false), lab(oks, sl, false), len(n.Children)))
 		for _, c := range n.Children {
 			walk(c)
@@ -702,11 +737,25 @@ func c06exec(c *h.Ctx, cs *h.Case) {
 						if x[1] == "-" {
 							k, ok2 = -1, true
 						}
+						noID := x[0] == "n"
+						if noID {
+							// an identity made as a struct literal: the deprecated ID field is empty
+							s, ok1 = 0, true
+							if k >= 1 && k <= c06maxServers {
+								s = k - 1
+							}
+						}
 						if !ok1 || !ok2 || s >= c06maxServers || k > c06maxSum {
 							return
 						}
-						genuine = genuine && k == s+1
-						sis = append(sis, cc.su.ident(s, k, tag%2 == 1))
+						genuine = genuine && k == s+1 && !noID
+						si := cc.su.ident(s, k, tag%2 == 1)
+						if noID {
+							cp := *si
+							cp.ID = network.ServerIdentityID{}
+							si = &cp
+						}
+						sis = append(sis, si)
 					}
 				}
 				var ro *onet.Roster
@@ -789,7 +838,7 @@ func c06exec(c *h.Ctx, cs *h.Case) {
 						return nil, false
 					}
 					// the node id is the one NewTreeNode derives, unless the op asks for another server's
-					if sl, ok := cc.su.sidOf[ro.List[it.a].ID]; !ok || sl != it.b {
+					if sl, ok := cc.su.sidOf[ro.List[it.a].GetID()]; !ok || sl != it.b {
 						n.ID = onet.NewTreeNode(0, cc.su.ident(it.b, it.b+1, false)).ID
 					}
 					for i := 0; i < it.ar; i++ {
@@ -990,7 +1039,15 @@ func c06exec(c *h.Ctx, cs *h.Case) {
 				if !bad {
 					var chk func(n *onet.TreeMarshal)
 					chk = func(n *onet.TreeMarshal) {
-						if i, e := ro.Search(n.ServerIdentityID); i < 0 || e.Public == nil {
+						// looked up by the identifier of the key (own loop: not the code's search)
+						found := false
+						for _, e := range ro.List {
+							if e != nil && e.GetID().Equal(n.ServerIdentityID) {
+								found = e.Public != nil
+								break
+							}
+						}
+						if !found {
 							bad = true
 						}
 						for _, c := range n.Children {
@@ -1415,6 +1472,9 @@ func init() {
 type c06rspec struct {
 	label, id, tag int
 	servers        []int // server labels, key = label+1
+	// what the entries' deprecated ID fields say: 0 = the identifier of the key (NewServerIdentity), 1 = nothing (an
+	// identity made as a struct literal), 2 = the identifier of the NEXT entry's key (as a peer may send it)
+	idf int
 }
 
 type c06tspec struct {
@@ -1425,8 +1485,15 @@ type c06tspec struct {
 
 func (r *c06rspec) op() string {
 	var sv []string
-	for _, s := range r.servers {
-		sv = append(sv, fmt.Sprintf("%d/%d", s, s+1))
+	for i, s := range r.servers {
+		switch r.idf {
+		case 1:
+			sv = append(sv, fmt.Sprintf("n/%d", s+1))
+		case 2:
+			sv = append(sv, fmt.Sprintf("%d/%d", r.servers[(i+1)%len(r.servers)], s+1))
+		default:
+			sv = append(sv, fmt.Sprintf("%d/%d", s, s+1))
+		}
 	}
 	if len(sv) == 0 {
 		sv = []string{"-"}
@@ -1529,7 +1596,7 @@ func c06gen(c *h.Ctx, yield func(*h.Case)) {
 	}
 	randRoster := func(label, id, tag, n int) *c06rspec {
 		p := r.Perm(c06maxServers - 2)[:n]
-		return &c06rspec{label, id, tag, p}
+		return &c06rspec{label, id, tag, p, 0}
 	}
 	randShape := func(nodes, nro int) (pos, ar []int) {
 		par := make([]int, nodes)
@@ -1592,7 +1659,7 @@ func c06gen(c *h.Ctx, yield func(*h.Case)) {
 				tag := si*2 + svc
 				n := 1 + r.Intn(12)
 				ro := randRoster(1, 1, tag, n)
-				other := &c06rspec{2, 2, tag, append([]int{}, ro.servers...)}
+				other := &c06rspec{2, 2, tag, append([]int{}, ro.servers...), 0}
 				r.Shuffle(len(other.servers), func(i, j int) { other.servers[i], other.servers[j] = other.servers[j], other.servers[i] })
 				other.servers = append(other.servers, c06maxServers-1)
 				ops := []string{ro.op(), other.op()}
@@ -1665,13 +1732,28 @@ func c06gen(c *h.Ctx, yield func(*h.Case)) {
 			}
 		}
 	}
+	// --- rosters whose entries carry no ID field (identities made as struct literals) or ID fields that disagree with
+	// the keys (a roster as a peer may send it; its id hashes the keys only): the tree code goes by the keys --------
+	for rep := 0; rep < c.Pick(12, 120); rep++ {
+		tag := r.Intn(len(c06suiteNames))*2 + r.Intn(2)
+		n := 2 + r.Intn(8)
+		ro := randRoster(1, 1, tag, n)
+		ro.idf = 1 + rep%2
+		ops := []string{ro.op()}
+		for ti := 0; ti < 3; ti++ {
+			t := &c06tspec{label: ti + 1, tid: ti + 1, ro: ro}
+			t.pos, t.ar = randShape(1+r.Intn(20), n)
+			ops = append(ops, t.op(), fmt.Sprintf("c06 marshal-rt %d 1", t.label), fmt.Sprintf("c06 binary-rt %d", t.label), "c06 maketree "+t.desc(t.tid, 1)+" 1")
+		}
+		emit("idfield "+[]string{"", "none", "swapped"}[ro.idf], ops)
+	}
 	// --- malformed and mismatching descriptions --------------------------------------------------
 	for i := 0; i < c.Pick(150, 2500); i++ {
 		tag := r.Intn(len(c06suiteNames)) * 2
 		n := 2 + r.Intn(6)
 		ro := randRoster(1, 1, tag, n)
-		sub := &c06rspec{2, 1, tag, append([]int{}, ro.servers[:n-1]...)} // same id, one server missing
-		ops := []string{ro.op(), sub.op(), (&c06rspec{3, 3, tag, nil}).op()}
+		sub := &c06rspec{2, 1, tag, append([]int{}, ro.servers[:n-1]...), 0} // same id, one server missing
+		ops := []string{ro.op(), sub.op(), (&c06rspec{3, 3, tag, nil, 0}).op()}
 		// roster 4: the last server's entry carries no public key; roster 5: that, and the first server is missing
 		keyless := func(label int, servers []int) string {
 			var sv []string
@@ -1715,9 +1797,9 @@ func c06gen(c *h.Ctx, yield func(*h.Case)) {
 	world := func() ([]string, []*c06rspec, []*c06tspec) {
 		n := 2 + r.Intn(4)
 		r1 := randRoster(1, 1, r.Intn(2), n)
-		r2 := &c06rspec{2, 2, r1.tag, append([]int{c06maxServers - 1}, r1.servers...)}
-		r3 := &c06rspec{3, 1, r1.tag, append([]int{}, r1.servers[:n-1]...)}
-		r4 := &c06rspec{4, 1, r1.tag ^ 1, append([]int{}, r1.servers...)} // the id and servers of roster 1, other content
+		r2 := &c06rspec{2, 2, r1.tag, append([]int{c06maxServers - 1}, r1.servers...), 0}
+		r3 := &c06rspec{3, 1, r1.tag, append([]int{}, r1.servers[:n-1]...), 0}
+		r4 := &c06rspec{4, 1, r1.tag ^ 1, append([]int{}, r1.servers...), 0} // the id and servers of roster 1, other content
 		ops := []string{r1.op(), r2.op(), r3.op(), r4.op()}
 		var ts []*c06tspec
 		for i := 0; i < 4; i++ {
